@@ -123,7 +123,9 @@ def gen_scalar(rng, name):
     if name == "bool":
         return rng.random() < 0.5, "bool"
     if name == "bytes":
-        return rng.choice([b"", b"abc", "é日本".encode(), b"1", b"null", "😀".encode()]), "bytes"
+        return rng.choice([b"", b"abc", "é日本".encode(), b"1", b"null", "😀".encode(),
+                           # valid UTF-8 that text tooling likes to "clean up": a leading byte order mark, NUL, line ends, surrounding blanks
+                           b"\xef\xbb\xbfabc", b"\xef\xbb\xbf", b"a\xef\xbb\xbfb", b"\x00", b"a\r\nb\n", b" pad ", b"\t", "\u2028".encode()]), "bytes"
     if name == "Decimal":
         digits = rng.randint(1, 15)
         coef = rng.randint(1, 10 ** digits - 1) * rng.choice([1, -1])
